@@ -81,8 +81,11 @@ def simulate_recession(connection, parameter_file):
     SELECT avg(evapotranspiration_mm_h) * 24
              AS evapotranspiration_mm_d
     FROM evapotranspiration AS e
+    JOIN zeta_interval AS zi
+      ON e.from_epoch >= zi.start_epoch
+      AND e.from_epoch < zi.thru_epoch
     JOIN recession_interval AS ri
-      ON e.from_epoch = ri.start_epoch"""
+      ON ri.start_epoch = zi.start_epoch"""
     )
     et_mm_d = cursor.fetchone()[0]
     assert et_mm_d >= 0, et_mm_d
